@@ -127,6 +127,8 @@ var keywordTokenTypes = map[string]models.TokenType{
 	"VALUES":  models.TokenTypeValues,
 	"SET":     models.TokenTypeSet,
 	"DEFAULT": models.TokenTypeDefault,
+	// RETURNING clause of INSERT/UPDATE/DELETE (must not be read as a table alias)
+	"RETURNING": models.TokenTypeReturning,
 	// MERGE statement keywords (SQL:2003 F312)
 	"MERGE":   models.TokenTypeMerge,
 	"MATCHED": models.TokenTypeMatched,
